@@ -45,7 +45,8 @@ def vary(rng, items, lines, p=0.5):
 
 # comments (documented: `#` to the end of the line) whose text looks like something the assembler knows
 COMMENTS = ['# save string pointer', '# error code in a0', '#string x', '# include defs.asm', '# x1, x2', '# bytes 1 2 3', '# K = 5', '# loop:',
-            '# 50% done', "# don't", '# (see above', '# pack <I 5', '# align 4', '# error', '# string', '# li x1, 1 # twice', '#']
+            '# 50% done', "# don't", '# (see above', '# pack <I 5', '# align 4', '# error', '# string', '# li x1, 1 # twice', '#',
+            "# 'A' would be 65", "# not '\\n'", "# ',' and ' '", "# '#'", "#'x'"]
 
 
 def comment(rng, line, p=0.3):
